@@ -11,7 +11,7 @@ pub struct ValueRange {
 impl ValueRange {
     pub fn new(from: i64, to: i64, inclusive: bool, unit: UnitSet) -> Self {
         let step = if to >= from { 1 } else { -1 };
-        let to = if inclusive { to + step } else { to };
+        let to = if inclusive { to.saturating_add(step) } else { to };
         Self {
             from,
             to,
